@@ -13,10 +13,23 @@ PreFacSigma, _XGAMMA_DVCS_t_Ex and the translated entries through the c06.* ops.
 
 Oracle streams (what no theorem carries — quadrature accuracy; they support, never replace, the theorems):
   A  bundled kinematics x shipped theories (KM09a dispersive, KM15 / KM10b hybrid Mellin-Barnes), |n| <= 3:
-     harmonic vs accurate Fourier integral, threshold 1 % of scale  (strict);
+     harmonic vs accurate Fourier integral, threshold 1 % of scale.  A miss is keyed by accuracy_key: when the
+     code's value EQUALS the documented 10-point rule applied to the observable (1e-9 of scale) the key is
+     'quadrature-accuracy/bundled/<obs>/n<k>' - the same registered known finding as in B (the finding records
+     up to 1.1 % at |n| = 3 on a few bundled points), so on bundled kinematics the 1 % threshold separates
+     "known rule inaccuracy" from everything else but does not fail the run by itself; a value that is NOT the
+     10-point rule of the observable and misses by more than 1 % is a violation 'fourier/<obs>/n<k>';
   B  random physical kinematics x constant CFFs, all observables, |n| <= 3, threshold 1 % of scale:
-     violations are reported under 'quadrature-accuracy/<obs>/n<k>' (a registered known finding on the
-     current tree), gross errors / normalisation-or-sign patterns under 'quadrature-gross/...';
+     misses are reported under 'quadrature-accuracy/<obs>/n<k>' (the registered known finding on the current
+     tree) when the value is the 10-point rule of the observable, under 'fourier/...' when it is not;
+     gross errors / normalisation-or-sign patterns under 'quadrature-gross/...';
+  A, B  "the same observable as a function of phi" is evaluated through TWO independent paths of the real code:
+     vars={'phi': ...} on the point without phi (the path _phiharmonic itself uses) and FRESH points that carry
+     phi themselves, evaluated without vars (XS then works on pt.copy()): vectorised on the reference grid for
+     every case, point by point at the 10 Gauss-Legendre nodes for a fixed share.  Where the two paths differ the
+     harmonic is compared with the Fourier coefficient of the explicit-phi scan ('harmonic-vs-explicit-phi/...').
+     A fixed share of the transverse-target configurations (every 4th configuration of a stream) gives the
+     target angle as an explicit `varphi` (0, pi/2, pi and random angles in [0, 2pi)) instead of varFTn = +-1;
   ∫ weight_BH dφ = 2π; XGAMMA total vs adaptive quad over -t in [0, tmmax] (1 %); flux identity on the real code.
 """
 import math
@@ -27,12 +40,24 @@ from common import f2hex, hex2f
 
 TOL_MODEL = 1e-12       # model vs code, relative to the sum of |terms| of the quadrature sum
 ACC = 0.01              # the property's "per-cent-of-scale"
-GROSS = 0.40            # stream B, -t/Q2 < 0.1 (largest error measured there on the pinned tree: 12 %): anything above is reported under a separate key
+GROSS = 0.40            # stream B, -t/Q2 < 0.1 (largest error measured there on the pinned tree: 17 % in 117 000 harmonics, see GROSS_HI): anything above is reported under a separate key
 OBS_U = ['XUU', 'XLU', 'XUUw', 'XLUw', 'XCUU', 'XCLU', 'AC', 'ALU', 'ALUI', 'ALUDVCS']
 OBS_L = ['TSA', 'BTSA']
 OBS_T = ['TSA', 'BTSA', 'AUTI', 'AUTDVCS', 'ALTI', 'ALTBHDVCS']
+OBS_TX = ['XUU', 'XLU', 'XUUw']     # cross sections on a transversely polarised target (they depend on the target angle too)
 XSLIKE = {'XUU', 'XLU', 'XUUw', 'XLUw', 'XCUU', 'XCLU'}
+GROSS_HI = 1.0          # stream B, -t/Q2 >= 0.1.  Measured on the pinned tree (every value being the 10-point rule of the observable): offline, 4000 configurations
+#                         of rand_config, 178 353 harmonics: max err/scale 0.171 / 0.258 / 0.271 / 0.278 / 0.267 in the -t/Q2 bins [0.1, 0.15) / [0.15, 0.2) /
+#                         [0.2, 0.3) / [0.3, 0.5) / [0.5, 1], 99.9 % quantile <= 0.23 (61 285 cases; below 0.1: max 0.169 in 117 068 cases); 1600 transverse-target
+#                         configurations with an explicit varphi, OBS_T + OBS_TX, 99 561 harmonics: max 0.165 below -t/Q2 = 0.1, 0.238 above; thorough tier, seed 0
+#                         (77 252 harmonics): max 0.336 (BM10ex ALU FTn=-3 at -t/Q2 = 0.77); the recorded finding says "up to 29 % of scale".  The tail grows slowly
+#                         with the sample and no a-priori bound below O(1) exists (one Gauss-Legendre node sitting on a narrow peak contributes up to
+#                         max(w_i) = 0.30 of scale, two peaks twice that; in general |rule - coefficient| <= (2 + 4/pi) scale), so the cap is empirical: 3 x the
+#                         largest error seen.  It is only about degradation of the rule on a more peaked observable - a wrong projection is already caught by
+#                         accuracy_key ('fourier/...') and by the pattern detectors at any -t/Q2
 NT = 512
+PATHS_AGREE = 1e-9      # vars= path vs explicit-phi points, of scale: same formulas on the same numbers (measured difference on the pinned tree: 0 in 11 462 cases)
+VARPHI_EVERY = 4        # every 4th configuration of a stream is a transverse target with an explicit varphi
 
 
 # ------------------------------------------------------------------------------------------
@@ -166,8 +191,19 @@ def inplace_scan(th, obs, kw, N):
     return np.array(out)
 
 
-def rand_config(rng, fset=None):
-    """constant-CFF theory + physical kinematics without phi + target configuration"""
+def varphi_plan(rng, i):
+    """target angle of configuration i of a stream: None (varFTn = +-1 as in the data files, or no transverse target) or
+    an explicit varphi.  Deterministic share: every VARPHI_EVERY-th configuration; the k-th of them takes 0, random, pi,
+    random, pi/2, random, ... (random in [0, 2 pi)), so every run has angles far from pi/2 and the special ones"""
+    if i % VARPHI_EVERY != VARPHI_EVERY - 1:
+        return None
+    k = i // VARPHI_EVERY
+    return [0.0, math.pi, math.pi / 2][(k // 2) % 3] if k % 2 == 0 else rng.uniform(0, 2 * math.pi)
+
+
+def rand_config(rng, fset=None, varphi=None):
+    """constant-CFF theory + physical kinematics without phi + target configuration; with `varphi` the target is
+    transversely polarised and its angle is given explicitly as varphi (no varFTn)"""
     fs = fset or rng.choice(B.FORMULA_SETS)
     m = B.random_m(rng, with_eff=rng.random() < 0.5)
     th = B.theory(fs, m)
@@ -176,12 +212,136 @@ def rand_config(rng, fset=None):
     kw['in1polarization'] = rng.choice([-1, 1])
     del kw['phi']
     tgt = rng.choice(['U', 'L', 'T'] if fs in B.LP_SETS else ['U', 'T'])
+    if varphi is not None:
+        tgt = 'T'
     if tgt != 'U':
         kw['in2polarizationvector'] = tgt
         kw['in2polarization'] = rng.choice([-1, 1])
     if tgt == 'T':
-        kw['varFTn'] = rng.choice([-1, 1])
+        if varphi is not None:
+            kw['varphi'] = float(varphi)
+        else:
+            kw['varFTn'] = rng.choice([-1, 1])
     return fs, m, th, kw, tgt
+
+
+def gl10():
+    """nodes on [0, 2 pi] and weights of the documented 10-point Gauss-Legendre rule, from scipy (not from the package)"""
+    from scipy.special import p_roots
+    r, w = p_roots(10)
+    return math.pi * (r + 1), w
+
+
+def rule10(f, y, w, n):
+    """the documented projection applied to node values f: (b-a)/2 sum(w f trig(n y)) / pi, halved for n = 0"""
+    import numpy as np
+    if n > 0:
+        return float(np.sum(w * f * np.cos(n * y)))
+    if n < 0:
+        return float(np.sum(w * f * np.sin(-n * y)))
+    return float(np.sum(w * f) / 2)
+
+
+def explicit_scan(th, obs, mk, phis, vector):
+    """the observable at explicit azimuths WITHOUT vars=: points that carry phi themselves (mk(phi) builds a fresh one), so
+    that XS works on pt.copy() and never goes through DataPoint(kindict=vars) + _fill_kinematics(kin, old=pt)"""
+    import numpy as np
+    f = getattr(th, obs)
+    if vector:
+        return np.asarray(f(mk(np.array(phis, dtype=float))), dtype=float) * np.ones(len(phis))
+    return np.array([float(f(mk(float(p)))) for p in phis])
+
+
+def explicit_paths(rep, th, obs, base, mk, vals, scale, n_list, nodes, where):
+    """'the same observable as a function of phi' through the independent path: explicit-phi points against the vars= values
+    `vals` (uniform grid of len(vals) azimuths).  Vectorised on that grid always; with `nodes` also point by point at the 10
+    Gauss-Legendre nodes.  Returns None when the paths agree (PATHS_AGREE of scale), else a dict with the Fourier
+    coefficients / scale / 10-point rule of the explicit-phi observable and one azimuth where the paths differ."""
+    import numpy as np
+    N = len(vals)
+    grid = np.arange(N) * 2 * math.pi / N
+    rep.case('oracle.explicit-phi', (where, obs, 'grid'))
+    ve = explicit_scan(th, obs, mk, grid, True)
+    # asymmetries are ratios of cross sections of natural size 1: an absolute 1e-13 keeps rounding of a nearly cancelling ratio
+    # (array vs scalar trigonometric functions may differ in the last bit) out of the comparison; irrelevant at 1 % of any scale >= 1e-11
+    tol = PATHS_AGREE * scale + (0.0 if obs in XSLIKE else 1e-13)
+    out = None
+    md = float(np.max(np.abs(ve - vals))) / scale if np.all(np.isfinite(ve - vals)) else float('inf')
+    rep.coverage['explicit_phi_max_path_difference_over_scale'] = max(rep.coverage.get('explicit_phi_max_path_difference_over_scale', 0.0), md)
+    if not np.all(np.abs(ve - vals) <= tol):           # also catches NaN
+        k = int(np.nanargmax(np.abs(ve - vals))) if np.any(np.isfinite(ve - vals)) else 0
+        out = dict(how='array of azimuths in one point', phi=float(grid[k]), explicit=float(ve[k]), vars=float(vals[k]), grid=ve)
+    if nodes or out is not None:
+        y, w = gl10()
+        rep.case('oracle.explicit-phi', (where, obs, 'nodes'))
+        se = explicit_scan(th, obs, mk, y, False)
+        sv = np.asarray(getattr(th, obs)(base, vars={'phi': y}), dtype=float) * np.ones(len(y))
+        md = float(np.max(np.abs(se - sv))) / scale if np.all(np.isfinite(se - sv)) else float('inf')
+        rep.coverage['explicit_phi_max_path_difference_over_scale'] = max(rep.coverage.get('explicit_phi_max_path_difference_over_scale', 0.0), md)
+        if out is None and not np.all(np.abs(se - sv) <= tol):
+            # only the point-by-point path differs: its own scan is the reference (one fresh point per azimuth)
+            k = int(np.nanargmax(np.abs(se - sv))) if np.any(np.isfinite(se - sv)) else 0
+            out = dict(how='one fresh point per azimuth', phi=float(y[k]), explicit=float(se[k]), vars=float(sv[k]),
+                       grid=explicit_scan(th, obs, mk, np.arange(256) * 2 * math.pi / 256, False))
+        if out is not None:
+            out['rule'] = {n: rule10(se, y, w, n) for n in n_list}
+    if out is None:
+        rep.hist('oracle.explicit-phi', 'paths-agree')
+        return None
+    rep.hist('oracle.explicit-phi', 'paths-differ')
+    ge = out['grid']
+    if not np.all(np.isfinite(ge)):
+        out['refs'] = None
+        return out
+    out['scale'] = float(np.max(np.abs(ge)))
+    out['refs'] = {n: fourier_ref(ge, n) for n in n_list}
+    if not all(abs(out['refs'][n] - fourier_ref(ge[::2], n)) <= 1e-5 * max(out['scale'], 1e-300) for n in n_list):
+        rep.hist('oracle.explicit-phi', 'explicit-scan-unconverged')
+        out['refs'] = None
+    return out
+
+
+def explicit_report(rep, xp, label, obs, harmonics, replay):
+    """the paths differ: every harmonic (n -> code value) against the Fourier coefficient of the explicit-phi scan, 1 % of
+    scale; the worst miss is reported.  A miss whose value IS the documented 10-point rule applied to the explicit-phi
+    observable is the recorded rule inaccuracy; no miss at all: the difference of the two paths is reported without a
+    failing input (the property could not be shown violated)."""
+    diff = 'at phi=%r a point carrying phi gives %r (%s) but vars={phi} on the point without phi gives %r' % (
+        xp['phi'], xp['explicit'], xp['how'], xp['vars'])
+    if xp['refs'] is None:
+        rep.violation('explicit-phi/values/' + obs, '%s: %s has no converged explicit-phi scan; %s' % (label, obs, diff), replay, found_input=False)
+        return
+    bad = []
+    for n, code in harmonics.items():
+        err = abs(code - xp['refs'][n]) / max(xp['scale'], 1e-300)
+        if not err <= ACC:
+            bad.append((err if err == err else float('inf'), n, code))
+    if not bad:
+        rep.violation('explicit-phi/values/' + obs, '%s: %s; no harmonic of %s is off by 1 %% of scale from the Fourier coefficient of the '
+                      'explicit-phi scan' % (label, diff, obs), replay, found_input=False)
+        return
+    is_rule = lambda n, code: abs(code - xp['rule'][n]) <= 1e-9 * max(xp['scale'], abs(xp['rule'][n]))
+    wrong = [b for b in bad if not is_rule(b[1], b[2])]
+    if not wrong:
+        err, n, code = max(bad)
+        rep.violation('quadrature-accuracy/explicit/%s/n%d' % (obs, n), '%s: %s harmonic FTn=%d = %r is the 10-point rule of the explicit-phi '
+                      'observable, whose Fourier coefficient is %r (scale %r)' % (label, obs, n, code, xp['refs'][n], xp['scale']), replay)
+        return
+    err, n, code = max(wrong)
+    own = xp['rule'][n]
+    rep.violation('harmonic-vs-explicit-phi/%s/n%d' % (obs, n),
+                  '%s: %s harmonic FTn=%d = %r, but the Fourier coefficient of the same observable of the same point evaluated at explicit phi '
+                  '(fresh points carrying phi, no vars=) is %r and the 10-point rule on those values gives %r (scale max|obs| = %r): %.3g of scale '
+                  '> 1 %%; %s' % (label, obs, n, code, xp['refs'][n], own, xp['scale'], err, diff),
+                  dict(replay, observable=obs, FTn=n, code=code, explicit_phi_fourier=xp['refs'][n], explicit_phi_ten_point_rule=own,
+                       scale=xp['scale'], phi=xp['phi'], value_explicit_phi=xp['explicit'], value_vars=xp['vars']))
+
+
+def lacks_lp(th):
+    """the theory's formula set has no longitudinally-polarised-target formulas: it does not descend from BM10ex, the class
+    that defines TBH2LP / TDVCS2LP / TINTLP (BMK and hotfixedBMK only carry placeholders that raise ValueError)"""
+    import gepard as g
+    return not isinstance(th, g.BM10ex)
 
 
 def bundled_points():
@@ -293,12 +453,12 @@ def corr_harmonics(rep, rng, C, rule, quick):
     # (a) constant CFFs, all formula sets, random kinematics, every observable of the target configuration
     ncfg = 20 if quick else 300
     for i in range(ncfg):
-        fs, m, th, kw, tgt = rand_config(rng, fset=B.FORMULA_SETS[i % 5] if i < 5 else None)
-        obs_list = {'U': OBS_U, 'L': OBS_L, 'T': OBS_T}[tgt]
+        fs, m, th, kw, tgt = rand_config(rng, fset=B.FORMULA_SETS[i % 5] if i < 5 else None, varphi=varphi_plan(rng, i))
+        obs_list = {'U': OBS_U, 'L': OBS_L, 'T': OBS_T + [OBS_TX[i % len(OBS_TX)]]}[tgt]
         for obs in obs_list:
             n_list = list(range(-3, 4))
             harm_lines(C, rule, th, obs, kw, n_list, ('const', fs, tgt, i), dict(set=fs, target=tgt, kinematics=kw, model=m))
-        rep.hist('harm.config', '%s/%s' % (fs, tgt))
+        rep.hist('harm.config', '%s/%s%s' % (fs, tgt, '/varphi' if 'varphi' in kw else ''))
     # unusual orders: non-integer, beyond 3, NaN -> ValueError; neither phi nor FTn -> ValueError; phi wins over FTn
     fs, m, th, kw, tgt = rand_config(rng, fset='BM10')
     kw = {k: v for k, v in kw.items() if not k.startswith('in2pol') and k != 'varFTn'}
@@ -474,7 +634,7 @@ def oracle_A(rep, rng, quick, intensive=False):
     worst = (0.0, None)
     plan = [('th_KM09a', (150 if quick else len(pts)) * (2 if intensive else 1), list(range(-3, 4))),
             ('th_KM15', 4 if quick else 60, None), ('th_KM10b', 3 if quick else 60, None)]
-    nq = 0
+    nq = na = 0
     for thn, npts, n_all in plan:
         th = getattr(F, thn)
         for nm, p in rng.sample(pts, min(npts, len(pts))):
@@ -483,14 +643,43 @@ def oracle_A(rep, rng, quick, intensive=False):
             n_list = n_all or sorted({int(p.FTn)} | set(rng.sample(range(-3, 4), 2)))
             try:
                 r = reference(th, p.observable, q, n_list, rep)
-            except Exception as e:     # e.g. longitudinal target with the BMK-based KM09a: the observable is not defined
-                rep.hist('oracleA.skipped', '%s/%s/%s' % (thn, p.observable, exc_name(e)))
+            except Exception as e:
+                # the ONE expected case: a longitudinally polarised target with a theory whose formula set is the (hotfixed) BMK one,
+                # which has no longitudinal-target formulas (bmk.BMK.TBH2LP / TDVCS2LP / TINTLP raise ValueError 'Longitudinal target
+                # not implemented for BMK model! Use BM10.'; BM10ex and its descendants define them): the observable is not defined there
+                if isinstance(e, ValueError) and getattr(p, 'in2polarizationvector', None) == 'L' and lacks_lp(th):
+                    rep.hist('oracleA.skipped', '%s/%s/%s' % (thn, p.observable, exc_name(e)))
+                    continue
+                rep.hist('oracleA.exception', '%s/%s/%s' % (thn, p.observable, exc_name(e)))
+                rep.violation('oracleA/exception/' + exc_name(e), '%s.%s at explicit azimuths (vars={phi: grid}) raised %r on the bundled point %s' % (
+                    thn, p.observable, e, pt_summary(p)), dict(theory=thn, observable=p.observable, point=pt_summary(p), exception=repr(e)))
                 continue
             if r is None:
                 continue
             scale, refs, vals = r
             if scale < 1e-12:
                 continue
+
+            def mk(phi, p=p):
+                e = p.copy()
+                del e.FTn
+                e.phi = phi
+                return e
+            try:
+                xp = explicit_paths(rep, th, p.observable, q, mk, vals, scale, n_list, nodes=(thn == 'th_KM09a' and na % 3 == 0),
+                                    where=(thn, p.xB, p.Q2, p.t))
+            except Exception as e:
+                rep.violation('oracleA/exception/' + exc_name(e), '%s.%s on a copy of the bundled point carrying phi raised %r; point %s' % (
+                    thn, p.observable, e, pt_summary(p)), dict(theory=thn, observable=p.observable, point=pt_summary(p), exception=repr(e)))
+                xp = None
+            na += 1
+            if xp is not None:
+                harm = {}
+                for n in n_list:
+                    pn = p.copy()
+                    pn.FTn = n
+                    harm[n] = float(getattr(th, p.observable)(pn))
+                explicit_report(rep, xp, '%s, bundled point %s' % (thn, pt_summary(p)), p.observable, harm, dict(theory=thn, point=pt_summary(p)))
             for n in n_list:
                 pn = p.copy()
                 pn.FTn = n
@@ -527,9 +716,16 @@ def oracle_B(rep, rng, ncfg, fset=None):
     stats = []
     unphys = 0
     for i in range(ncfg):
-        fs, m, th, kw, tgt = rand_config(rng, fset=fset)
+        fs, m, th, kw, tgt = rand_config(rng, fset=fset, varphi=varphi_plan(rng, i))
         base = g.DataPoint(**kw)
-        for obs in {'U': OBS_U, 'L': OBS_L, 'T': OBS_T}[tgt]:
+        obs_list = {'U': OBS_U, 'L': OBS_L, 'T': OBS_T}[tgt]
+        if tgt == 'T':      # cross sections on the transverse target: all three with an explicit varphi, one otherwise
+            obs_list = obs_list + (OBS_TX if 'varphi' in kw else [OBS_TX[i % len(OBS_TX)]])
+        rep.hist('oracleB.target', tgt + ('/varphi' if 'varphi' in kw else '/varFTn' if tgt == 'T' else ''))
+        if 'varphi' in kw:
+            rep.hist('oracleB.varphi', 'special %.4f' % kw['varphi'] if kw['varphi'] in (0.0, math.pi / 2, math.pi) else
+                     'random, |varphi - pi/2| > 0.3' if abs(kw['varphi'] - math.pi / 2) > 0.3 else 'random, within 0.3 of pi/2')
+        for obs in obs_list:
             try:
                 r = reference(th, obs, base, list(range(-3, 4)), rep)
             except Exception as e:
@@ -560,7 +756,7 @@ def oracle_B(rep, rng, ncfg, fset=None):
                             if abs(code - four) > ACC * scale:
                                 rep.violation('inplace-scan/%s/n%d' % (obs, n), '%s, target %s: %s harmonic FTn=%d = %r but the Fourier coefficient of the '
                                               'observable scanned on one prepared point (phi set in place, prepare() called between the moves) is %r; at phi=%r '
-                                              'that point gives %r, a fresh point %r' % (fs, tgt, obs, n, code, four, k * 2 * math.pi * step / NT, float(sv[k]),
+                                              'that point gives %r, a fresh point %r' % (fs, tgt + (' varphi=%r' % kw['varphi'] if 'varphi' in kw else ''), obs, n, code, four, k * 2 * math.pi * step / NT, float(sv[k]),
                                                                                        float(vals[k * step] if len(vals) == NT else vals[k * 8 * step])),
                                               dict(obs=obs, n=n, set=fs, target=tgt, kinematics=kw, model=m, code=code, scan_fourier=four))
                                 break
@@ -571,12 +767,26 @@ def oracle_B(rep, rng, ncfg, fset=None):
                 except Exception as e:
                     rep.violation('oracleB/exception/' + exc_name(e), '%s.%s on a prepared, moved point raised %r' % (fs, obs, e),
                                   dict(set=fs, kinematics=kw, model=m))
+            # "the same observable as a function of phi" through the independent path: fresh points that carry phi, no vars=
+            # (every case on the reference grid; point by point at the 10 nodes for explicit-varphi configurations and every 3rd other)
+            try:
+                xp = explicit_paths(rep, th, obs, base, lambda phi: g.DataPoint(**dict(kw, phi=phi)), vals, scale, list(range(-3, 4)),
+                                    nodes=('varphi' in kw or i % 3 == 0), where=(fs, tgt, i))
+            except Exception as e:
+                rep.violation('oracleB/exception/' + exc_name(e), '%s.%s on a point carrying phi raised %r' % (fs, obs, e),
+                              dict(set=fs, observable=obs, kinematics=kw, model=m))
+                xp = None
+            harm = {}
             for n in range(-3, 4):
                 code = float(getattr(th, obs)(g.DataPoint(**dict(kw, FTn=n))))
+                harm[n] = code
                 err = abs(code - refs[n]) / scale
                 rep.case('oracle-B', (fs, tgt, obs, n, i))
                 stats.append(dict(err=err, obs=obs, n=n, code=code, ref=refs[n], scale=scale, set=fs, target=tgt, kinematics=kw, model=m,
                                   tQ=-kw['t'] / kw['Q2'], _th=th, _base=base))
+            if xp is not None:
+                explicit_report(rep, xp, '%s, target %s%s' % (fs, tgt, ' varphi=%r' % kw['varphi'] if 'varphi' in kw else ''), obs, harm,
+                                dict(set=fs, target=tgt, kinematics=kw, model=m))
     # report
     by_n = {}
     for s in stats:
@@ -607,6 +817,8 @@ def oracle_B(rep, rng, ncfg, fset=None):
                                                       s['kinematics']['exptype'], s['kinematics']['in1energy'])
         if s['err'] > GROSS and s['tQ'] < 0.1:
             rep.violation('quadrature-gross/%s/n%d' % (s['obs'], s['n']), what + ' (above %.0f %% at -t/Q2 < 0.1)' % (100 * GROSS), rp)
+        elif s['err'] > GROSS_HI and s['tQ'] >= 0.1:
+            rep.violation('quadrature-gross/%s/n%d' % (s['obs'], s['n']), what + ' (above %.0f %% at -t/Q2 >= 0.1)' % (100 * GROSS_HI), rp)
         if not reported:     # the worst case only; the per-|n| failure fractions are in coverage.oracleB
             reported = True
             nbad = sum(1 for x in stats if x['err'] > ACC)
@@ -735,12 +947,12 @@ def sequence_stream(rep, rng, quick):
     (bundled points carrying FTn = 0 are the delicate ones)"""
     import gepard as g
     from gepard import fits
-    cand = [p for k in sorted(g.dset) for p in g.dset[k]
+    cand = [(k, j, p) for k in sorted(g.dset) for j, p in enumerate(g.dset[k])
             if p.get('process') in ('ep2epgamma', 'en2engamma') and 'FTn' in p and 'phi' not in p and 't' in p]
-    zero = [p for p in cand if p['FTn'] == 0]
+    zero = [c for c in cand if c[2]['FTn'] == 0]
     pool = rng.sample(zero, min(len(zero), 5 if quick else 40)) + rng.sample(cand, min(len(cand), 3 if quick else 40))
     th = fits.th_KM15
-    for p in pool:
+    for ip, (dk, dj, p) in enumerate(pool):
         q = p.copy()                       # work on a copy: the bundled point itself stays as loaded
         ref_pt = p.copy()
         try:
@@ -757,12 +969,13 @@ def sequence_stream(rep, rng, quick):
             after = float(th.XUU(q))
         except Exception as e:
             after = 'EXC:' + type(e).__name__
-        rep.case('sequence', (p.get('id'), p.get('FTn'), id(p)), sample=dict(dataset=p.get('id'), FTn=p.get('FTn'), steps=steps) if p is pool[0] else None)
+        # key: dataset id + index of the point in its dataset (deterministic; the same point drawn twice counts once)
+        rep.case('sequence', (dk, dj, p.get('FTn'), tuple(steps)), sample=dict(dataset=p.get('id'), index=dj, FTn=p.get('FTn'), steps=steps) if ip == 0 else None)
         if after != before:
             rep.violation('sequence/XSintphi-then-XUU/FTn=%s' % p.get('FTn'),
                           'XUU of a point of dataset %s with FTn=%r is %r, but after %s on the same point it is %r'
                           % (p.get('id'), p.get('FTn'), before, '+'.join(steps) or 'XSintphi', after),
-                          dict(dataset=p.get('id'), FTn=p.get('FTn'), before=before, after=after))
+                          dict(dataset=p.get('id'), index_in_dataset=dj, FTn=p.get('FTn'), before=before, after=after))
 
 
 def run(rep):
@@ -806,16 +1019,28 @@ def run(rep):
     if not ok and not rep.violations:
         rep.violation('lean', 'Lean side of C08 no longer checks: ' + why, dict(reason=why), found_input=False)
     rep.notes += [
-        'oracle stream A (strict): bundled kinematics x shipped theories, harmonic vs Fourier integral (512-point periodic trapezoid, '
-        'convergence-checked, cross-checked with scipy.integrate.quad), threshold 1 % of max_phi |observable|',
+        'oracle stream A: bundled kinematics x shipped theories, harmonic vs Fourier integral (512-point periodic trapezoid, '
+        'convergence-checked, cross-checked with scipy.integrate.quad), threshold 1 % of max_phi |observable|.  A miss above 1 % whose value '
+        'equals the documented 10-point rule applied to the observable (1e-9 of scale) is keyed "quadrature-accuracy/bundled/..." and is matched by '
+        'the same registered known finding as stream B (it records 1.1 % at |n| = 3 on a few bundled points): on bundled kinematics the 1 % '
+        'threshold therefore fails the run only when the value is NOT the 10-point rule of the observable ("fourier/..."); the largest error '
+        'seen is in coverage.oracleA_worst',
         'oracle stream B: random physical kinematics x constant CFFs, same threshold; failures are the registered known finding '
         '"quadrature-accuracy/" (10-point Gauss-Legendre on [0,2pi] is too coarse for the peaked BH propagators); gross errors (> 40 % at '
-        '-t/Q2 < 0.1) and normalisation/sign patterns are reported under "quadrature-gross/"; measured fractions in coverage.oracleB',
+        '-t/Q2 < 0.1, > 100 % above: largest measured on the pinned tree 17 % resp. 34 % in 350 000 harmonics) and normalisation/sign patterns are reported under "quadrature-gross/"; measured fractions in coverage.oracleB',
+        'streams A and B evaluate "the same observable as a function of phi" through two paths of the real code: vars={phi} on the point without '
+        'phi (what _phiharmonic uses) and fresh points that carry phi, evaluated without vars (vectorised on the reference grid for every case, '
+        'point by point at the 10 Gauss-Legendre nodes for a fixed share); where they differ the harmonic is compared with the Fourier '
+        'coefficient of the explicit-phi scan ("harmonic-vs-explicit-phi/...", 1 % of scale).  Every 4th configuration of the harmonic '
+        'correspondence and of stream B is a transverse target whose angle is an explicit varphi (0, pi, pi/2, random in [0, 2pi)) instead of varFTn',
         'oracle streams support the theorems (quadrature accuracy is outside them), they replace none']
     rep.assumptions += [
         'model vs code tolerance 1e-12 of the sum of absolute terms of the quadrature sum (numpy pairwise summation and vectorised vs scalar '
         'evaluation of the integrand differ from the left fold at rounding level)',
         'the Hquadrature / tquadrature rules are probed from gepard.quadrature as data (abscissas, weights); the model applies the same affine map',
+        'the two evaluation paths of "the observable at explicit phi" (vars={phi} vs points carrying phi) are taken to agree when they differ by at most '
+        '1e-9 of max_phi |observable| (+ 1e-13 absolute for asymmetries): both evaluate the same formulas on the same numbers; the largest difference '
+        'seen is in coverage.explicit_phi_max_path_difference_over_scale',
         'stream B skips asymmetries whose modulus exceeds 1 somewhere in phi (a cross section of that random CFF set is negative there) and '
         'observables that vanish identically',
         'floating point: theorems are over ℝ; the literal 65.14079453579676 equals pi alpha^2 GeV2nb to 2 ulp (checked on every run)']
